@@ -62,6 +62,106 @@ def r1_identity_gate(chk):
         r.require(cfg, 4, "gate obligations")
 
 
+def r2_identity_from_source_pipe(chk):
+    r = chk.rule("R2", "the identity prefix comes from the pipe the batch came from", "T11 derives-from",
+                 "the pipe id handed to the identity lookup is the one returned with the batch; the prefix is pipe_to_identity_shared_map[that pipe] or that pipe's placeholder; "
+                 "the identity registered for sending (RouterMap) and the one used as receive prefix (shared map) are the same value under the same pipe key")
+    for cfg, prog in chk.configs():
+        # (a) call sites: (pipe id, batch) are the two halves of one recv_logical_finalized result
+        n_sites = 0
+        lookup = None
+        for body in prog.bodies.values():
+            if "::tests" in body.path or "router_socket::RouterSocket" not in body.path:
+                continue
+            for c in body.calls:
+                cb = prog.body(c.callee)
+                if cb is None or cb.impl_self != "socket::router_socket::RouterSocket" or len(c.args) < 3:
+                    continue
+                tys = [a["p"]["ty"] if a["c"] in ("copy", "move") else "" for a in c.args]
+                if not (tys[1] == "usize" and tys[2].endswith("message::FrameBatch")):
+                    continue
+                pb = body.provenance(c.args[2])
+                if "recv_logical_finalized" not in pb:
+                    continue
+                lookup = cb
+                n_sites += 1
+                pa = body.provenance(c.args[1])
+                key = "%s|pipe id and batch passed to %s come from one result" % (short(body.path), cb.name)
+                if pa.endswith(".0") and pb.endswith(".1") and pa[:-2] == pb[:-2]:
+                    r.ok(cfg, key, where(body, c.blk), "both halves of " + pa[:-2][-80:])
+                else:
+                    r.bad(cfg, key, where(body, c.blk), "the batch comes from `%s` but the pipe id passed with it is `%s`: the message would be prefixed with the identity of a different connection" % (pb[-120:], pa[-120:]))
+        if lookup is None:
+            r.bad(cfg, "anchor|identity lookup", "-", "no RouterSocket method taking (usize, FrameBatch) fed from recv_logical_finalized was found")
+            continue
+        # (b) inside the lookup: the identity returned with the payload is map[pipe param] or placeholder(pipe param)
+        names, _ = lookup.names
+        pid_name = names.get(2, "?")
+        n_ret = 0
+        for b, i, st in lookup.aggregates():
+            if st["r"].get("variant") != "Ok" or not st["r"].get("adt", "").endswith("result::Result"):
+                continue
+            org = lookup.value_origin(st["r"]["ops"][0])
+            if org[0] != "agg" or org[1]["r"].get("ak") != "tuple" or len(org[1]["r"]["ops"]) != 2:
+                continue
+            n_ret += 1
+            ident = lookup.provenance_all(org[1]["r"]["ops"][0])
+            key = "%s|returned identity#%d is the source pipe's" % (short(lookup.path), n_ret)
+            want = "DashMap::get(self.pipe_to_identity_shared_map, %s)" % pid_name
+            if want in ident:
+                r.ok(cfg, key, where(lookup, b), "identity = pipe_to_identity_shared_map[%s] (or its fallback)" % pid_name)
+            else:
+                r.bad(cfg, key, where(lookup, b), "the identity returned with the payload is `%s`, not the entry of pipe_to_identity_shared_map for the pipe the batch came from (`%s`)" % (ident[:200], pid_name))
+        # fallbacks: every placeholder built on this path is the placeholder of the same pipe
+        n_ph = 0
+        for body in [lookup] + [x for x in prog.bodies.values() if x.path.startswith(lookup.path + "::{closure")]:
+            for c in body.calls:
+                if not c.matches(r"RouterSocket::pipe_id_to_placeholder_identity$"):
+                    continue
+                n_ph += 1
+                src = body.provenance(c.args[0])
+                key = "%s|placeholder is the source pipe's" % short(body.path)
+                ok = src == pid_name
+                if body is not lookup:
+                    # closure: the argument must be the captured pipe id, and the capture must be the parameter
+                    ok = False
+                    for b2, i2, st2 in lookup.aggregates():
+                        if st2["r"].get("ak") == "closure" and st2["r"].get("def") == body.path:
+                            caps = [lookup.provenance(o) for o in st2["r"]["ops"]]
+                            capnames = st2["r"].get("fields") or []
+                            ok = src in (pid_name,) and pid_name in caps
+                if ok:
+                    r.ok(cfg, key, where(body, c.blk), "placeholder(%s)" % src)
+                else:
+                    r.bad(cfg, key, where(body, c.blk), "the fallback identity is the placeholder of `%s`, not of the pipe the batch came from" % src)
+        r.require(cfg, n_sites + 2, "identity-prefix obligations")
+        # (c) registration: the identity stored for sending and the one stored as receive prefix are one value, one pipe
+        for body in prog.bodies.values():
+            if body.impl_self != "socket::router_socket::RouterSocket" or not body.kind.startswith("coroutine") or "::tests" in body.path:
+                continue
+            reg = [c for c in body.calls if c.matches(r"RouterMap::(add_peer|update_peer_identity)$")]
+            if not reg:
+                continue
+            ins = [c for c in body.calls if c.name == "insert" and "DashMap" in c.callee and (c.recv() or "").endswith("pipe_to_identity_shared_map")]
+            key = "%s|send-side and receive-side identity registered together" % short(body.root)
+            if not ins:
+                r.bad(cfg, key, where(body, reg[0].blk), "the identity is registered in the RouterMap (send side) but pipe_to_identity_shared_map (receive prefix) is not updated: messages from this peer keep the old prefix")
+                continue
+            c = reg[0]
+            cb = prog.body(c.callee)
+            cn, _ = cb.names if cb else ({}, None)
+            # positions of the Blob and the usize among the callee's arguments
+            vals = [body.provenance(a) for a in c.args]
+            tys = [a["p"]["ty"] if a["c"] in ("copy", "move") else "" for a in c.args]
+            blob = [v for v, t in zip(vals, tys) if t.endswith("Blob")]
+            pid = [v for v, t in zip(vals, tys) if t == "usize"]
+            iv = [body.provenance(a) for a in ins[0].args]
+            if blob and pid and iv[1] == pid[0] and iv[2] == blob[0]:
+                r.ok(cfg, key, where(body, c.blk), "RouterMap and shared map both get (%s, %s)" % (pid[0], blob[0]))
+            else:
+                r.bad(cfg, key, where(body, ins[0].blk), "RouterMap is given (%s, %s) but pipe_to_identity_shared_map gets (%s, %s): the identity a peer is addressed by and the identity its messages are prefixed with differ" % (pid[:1], blob[:1], iv[1], iv[2]))
+
+
 def r3_maps_together(chk):
     r = chk.rule("R3", "both routing maps change together", "T2 sibling agreement",
                  "every RouterMap function that writes identity_to_peer_info or read_pipe_to_identity updates the other map too")
@@ -152,6 +252,7 @@ def r5_delimiter_symmetry(chk):
 def run(chk):
     chk.undecided = ["which peer wins a colliding identity; reconnect orders", "payload shapes with inner empty frames (value-level)"]
     r1_identity_gate(chk)
+    r2_identity_from_source_pipe(chk)
     r3_maps_together(chk)
     r4_mandatory(chk)
     r5_delimiter_symmetry(chk)
